@@ -1,0 +1,29 @@
+//go:build verif
+
+package builder
+
+import "time"
+
+// VerifBuildClientState is a read-only snapshot of the mutable fields
+// of a BuildClient. It must only be requested by the goroutine that
+// also calls Run().
+type VerifBuildClientState struct {
+	SchedulerMayThinkExecutingUntil *time.Time
+	NextSynchronizationAt           time.Time
+	HasExecution                    bool
+	PreferBeingIdle                 bool
+}
+
+// VerifState returns a snapshot of the BuildClient's mutable fields.
+func (bc *BuildClient) VerifState() VerifBuildClientState {
+	s := VerifBuildClientState{
+		NextSynchronizationAt: bc.nextSynchronizationAt,
+		HasExecution:          bc.executionCancellation != nil,
+		PreferBeingIdle:       bc.request.PreferBeingIdle,
+	}
+	if t := bc.schedulerMayThinkExecutingUntil; t != nil {
+		u := *t
+		s.SchedulerMayThinkExecutingUntil = &u
+	}
+	return s
+}
